@@ -280,15 +280,15 @@ def cov_from_api(runs):
 
 # per-property configuration of engine A: list of (flavour, alphabet, oracles, quick depth, thorough depth)
 API_CHECKS = {
-    "C05": [("plain", "mut", "C05", 5, 7)],
-    "C06": [("plain", "frames", "C06", 4, 6)],
-    "C07": [("plain", "c07", "C07", 4, 6)],
-    "C08": [("plain", "frames", "C08", 4, 6)],
-    "C09": [("plain", "params", "C09", 3, 4)],
-    "C10": [("plain", "mut", "C10", 4, 6), ("plain", "c07", "C10", 4, 5), ("plain", "params", "C10", 3, 4)],
-    "C11": [("plain", "lookup", "C11", 4, 6)],
-    "C01": [("plain", "build", "C01", 3, 5)],
-    "C03": [("plain", "build", "C03", 3, 5)],
+    "C05": [("plain", "mut", "C05", 6, 9)],
+    "C06": [("plain", "frames", "C06", 6, 9)],
+    "C07": [("plain", "c07", "C07", 6, 9)],
+    "C08": [("plain", "frames", "C08", 6, 9)],
+    "C09": [("plain", "params", "C09", 3, 5)],
+    "C10": [("plain", "mut", "C10", 6, 8), ("plain", "c07", "C10", 6, 8), ("plain", "params", "C10", 3, 4)],
+    "C11": [("plain", "lookup", "C11", 7, 10)],
+    "C01": [("plain", "build", "C01", 4, 6)],
+    "C03": [("plain", "build", "C03", 4, 6)],
 }
 
 
